@@ -1,5 +1,252 @@
 package main
 
-// finalOracles: end-of-history checks (extended per property).
+import (
+	"fmt"
+	"sort"
+	"strings"
+
+	hg "github.com/mosaicnetworks/babble/src/hashgraph"
+	"github.com/mosaicnetworks/babble/src/peers"
+	"verifharness/hx"
+)
+
+// C05: conservation of the transactions accepted by node a:
+// submitted (in order) == payload of a's own events (by index) ++ pool.
+func (h *hist) conservation(a *hx.Node) {
+	w := h.w
+	own := []int{}
+	p := w.Peers[a.Self]
+	hs, err := a.Store.ParticipantEvents(p.PubKeyString(), -1)
+	if err == nil {
+		for _, x := range hs {
+			ev, err := a.Store.GetEvent(x)
+			if err != nil {
+				continue
+			}
+			for _, tx := range ev.Transactions() {
+				own = append(own, hx.TxSerialOf(tx))
+			}
+		}
+	}
+	for _, tx := range a.Core.TransactionPool() {
+		own = append(own, hx.TxSerialOf(tx))
+	}
+	sub := h.submitted[a.ID]
+	if fmt.Sprint(own) != fmt.Sprint(sub) {
+		w.Violation("C05", "accepted-transactions-not-conserved",
+			fmt.Sprintf("node=%d submitted=%v events+pool=%v", a.ID, tail(sub), tail(own)))
+	}
+}
+
+func tail(l []int) []int {
+	if len(l) > 12 {
+		return l[len(l)-12:]
+	}
+	return l
+}
+
+// committed event sequence of a node: frames of all processed rounds, in order
+func (h *hist) committedEvents(a *hx.Node) (seq []int, ok bool) {
+	if a.Hg.LastConsensusRound == nil {
+		return nil, true
+	}
+	first := 0
+	if a.Hg.FirstConsensusRound != nil {
+		first = *a.Hg.FirstConsensusRound
+	}
+	for r := first; r <= *a.Hg.LastConsensusRound; r++ {
+		f, err := a.Store.GetFrame(r)
+		if err != nil {
+			continue // a round that was never queued (e.g. below the first consensus round)
+		}
+		for _, fe := range f.Events {
+			seq = append(seq, h.w.Eid(fe.Core.Hex()))
+		}
+	}
+	return seq, true
+}
+
+// C04 / C05: committed order extends ancestry; events whole and once; block payload = frame payload;
+// every committed transaction was submitted and is committed once.
+func (h *hist) orderOracle(a *hx.Node) {
+	w := h.w
+	seq, _ := h.committedEvents(a)
+	pos := map[int]int{}
+	for i, e := range seq {
+		if _, dup := pos[e]; dup {
+			w.Violation("C04", "event-committed-twice", fmt.Sprintf("node=%d eid=%d", a.ID, e))
+		}
+		pos[e] = i
+	}
+	reset := a.Hg.FirstConsensusRound != nil && *a.Hg.FirstConsensusRound > 0 && a.WasReset
+	for _, e := range seq {
+		ev := w.EvByEid[e]
+		for _, ph := range []string{ev.SelfParent(), ev.OtherParent()} {
+			if ph == "" {
+				continue
+			}
+			pe := w.Eid(ph)
+			pp, committed := pos[pe]
+			if !committed {
+				if !reset {
+					w.Violation("C04", "committed-before-its-parent", fmt.Sprintf("node=%d eid=%d parent=%d (parent not committed)", a.ID, e, pe))
+				}
+				continue
+			}
+			if pp >= pos[e] {
+				w.Violation("C04", "committed-before-its-parent", fmt.Sprintf("node=%d eid=%d pos=%d parent=%d pos=%d", a.ID, e, pos[e], pe, pp))
+			}
+		}
+	}
+	// block payload = concatenation of the frame events' payloads
+	seen := map[int]int{}
+	for k, b := range a.Final {
+		f, err := a.Store.GetFrame(b.RoundReceived())
+		if err != nil {
+			w.Violation("C04", "frame-of-block-missing", fmt.Sprintf("node=%d block=%d", a.ID, k))
+			continue
+		}
+		want := []int{}
+		wantItx := 0
+		for _, fe := range f.Events {
+			for _, tx := range fe.Core.Transactions() {
+				want = append(want, hx.TxSerialOf(tx))
+			}
+			wantItx += len(fe.Core.InternalTransactions())
+		}
+		got := []int{}
+		for _, tx := range b.Transactions() {
+			got = append(got, hx.TxSerialOf(tx))
+		}
+		if fmt.Sprint(got) != fmt.Sprint(want) || wantItx != len(b.InternalTransactions()) {
+			w.Violation("C04", "block-payload-is-not-frame-payload", fmt.Sprintf("node=%d block=%d got=%v want=%v", a.ID, k, tail(got), tail(want)))
+		}
+		for _, s := range got {
+			if s < 1 || s > w.TxSerial {
+				w.Violation("C05", "committed-transaction-never-submitted", fmt.Sprintf("node=%d block=%d serial=%d", a.ID, k, s))
+			}
+			if prev, dup := seen[s]; dup {
+				w.Violation("C05", "transaction-committed-twice", fmt.Sprintf("node=%d serial=%d blocks=%d,%d", a.ID, s, prev, k))
+			}
+			seen[s] = k
+		}
+	}
+}
+
+// C10: the store's validator-set table equals the replay of the node's own delivered blocks.
+func (h *hist) peerSetOracle(a *hx.Node) {
+	w := h.w
+	type entry struct {
+		r  int
+		ps []int
+	}
+	cur := append([]int{}, h.genesis...)
+	table := map[int][]int{0: append([]int{}, cur...)}
+	base := 0
+	if a.WasReset {
+		return // a reset node starts from the frame's table: checked by C13
+	}
+	for _, b := range a.Final[base:] {
+		changed := false
+		for _, r := range b.InternalTransactionReceipts() {
+			if !r.Accepted {
+				continue
+			}
+			o := w.Ord(r.InternalTransaction.Body.Peer.PubKeyHex)
+			if r.InternalTransaction.Body.Type == hg.PEER_ADD {
+				found := false
+				for _, x := range cur {
+					if x == o {
+						found = true
+					}
+				}
+				if !found {
+					cur = append(append([]int{}, cur...), o)
+				}
+			} else {
+				nc := []int{}
+				for _, x := range cur {
+					if x != o {
+						nc = append(nc, x)
+					}
+				}
+				cur = nc
+			}
+			changed = true
+		}
+		if changed {
+			if _, exists := table[b.RoundReceived()+6]; !exists {
+				table[b.RoundReceived()+6] = append([]int{}, cur...)
+			}
+		}
+	}
+	all, _ := a.Store.GetAllPeerSets()
+	got := map[int][]int{}
+	for r, ps := range all {
+		l := []int{}
+		for _, p := range ps {
+			l = append(l, w.Ord(p.PubKeyHex))
+		}
+		got[r] = l
+	}
+	if tableStr(got) != tableStr(table) {
+		w.Violation("C10", "validator-set-table-is-not-replay-of-blocks", fmt.Sprintf("node=%d store=[%s] replay=[%s]", a.ID, tableStr(got), tableStr(table)))
+	}
+	// lookup rule and peers hash of every delivered block
+	for k, b := range a.Final {
+		ps, err := a.Store.GetPeerSet(b.RoundReceived())
+		if err != nil {
+			continue
+		}
+		want := lookup(table, b.RoundReceived())
+		l := []int{}
+		for _, p := range ps.Peers {
+			l = append(l, w.Ord(p.PubKeyHex))
+		}
+		if fmt.Sprint(l) != fmt.Sprint(want) {
+			w.Violation("C10", "lookup-differs-from-replay", fmt.Sprintf("node=%d round=%d got=%v want=%v", a.ID, b.RoundReceived(), l, want))
+		}
+		wantPeers := []*peers.Peer{}
+		for _, o := range want {
+			wantPeers = append(wantPeers, w.Peers[o])
+		}
+		hsh, _ := peers.NewPeerSet(wantPeers).Hash()
+		if fmt.Sprintf("%X", hsh) != fmt.Sprintf("%X", b.PeersHash()) {
+			w.Violation("C10", "block-peers-hash-is-not-hash-of-effective-set", fmt.Sprintf("node=%d block=%d", a.ID, k))
+		}
+	}
+}
+
+func lookup(table map[int][]int, r int) []int {
+	best := -1
+	for k := range table {
+		if k <= r && k > best {
+			best = k
+		}
+	}
+	return table[best]
+}
+
+func tableStr(t map[int][]int) string {
+	rs := []int{}
+	for r := range t {
+		rs = append(rs, r)
+	}
+	sort.Ints(rs)
+	s := []string{}
+	for _, r := range rs {
+		s = append(s, fmt.Sprintf("%d=%v", r, t[r]))
+	}
+	return strings.Join(s, " ")
+}
+
+// finalOracles: end-of-history checks.
 func (h *hist) finalOracles() {
+	for _, a := range h.nodes {
+		h.orderOracle(a)
+		h.peerSetOracle(a)
+		if !a.Faulty {
+			h.conservation(a)
+		}
+	}
 }
